@@ -28,6 +28,12 @@ from common import CORPUS, err_kind
 
 TOL = 1e-9
 WSET = (1, 2, 3, 5, 17, 1000)
+WMILD = (1, 2, 3, 5, 17)     # free weights for glynn blocks > GLYNN_WIDE_MAX (see the assumption on conditioning)
+GLYNN_WIDE_MAX = 5           # largest non-row-constant block that gets weights with dynamic range 1000
+REPORT_ILL_CONDITIONED = False   # report the Glynn-cancellation witness below as a property failure
+ILL_CONDITIONED = {"kind": "ill-conditioned", "off": 1,
+                   "W": [[1] + [0] * 10] + [[0] + [1] * 9 + [0]] + [[0, 1000] + [1] * 8 + [0] for _ in range(8)] + [[0] * 11],
+                   "locks": [0] * 10 + [1]}
 SPEC_ALL = 5          # idle blocks up to this size always go through the Lean `spec` op (brute force n!)
 PERM_MAX = 8          # up to this size the Lean permC of the idle block and of one minor is compared as well
 SPEC_CAP_QUICK = {6: 40, 7: 6, ("perm", 8): 40}
@@ -340,6 +346,16 @@ def case_key(c):
     return (c["off"], tuple(c["locks"]), tuple(tuple(r) for r in c["W"]))
 
 
+def well_scaled(M):
+    """every positive entry is at least 1/17 of its row maximum (whole-matrix permanent_prob is then far from
+    the cancellation regime of Glynn's formula)"""
+    for r in M:
+        mx = max(r)
+        if any(0 < x * 17 < mx for x in r):
+            return False
+    return True
+
+
 # --------------------------------------------------------------------------- property predicate
 def predicate(code, case, res=None, want=None, full=True):
     """the property on the implementation's own output for one in-family case.
@@ -399,7 +415,7 @@ def predicate(code, case, res=None, want=None, full=True):
         # whole idle block through permanent_prob must agree with inf_retis (block-wise / fast paths)
         if case.get("cross"):
             M = Wa[idle][:, idle]
-            if len(M) >= 2:
+            if len(M) >= 2 and well_scaled(M):
                 try:
                     Q = np.asarray(code.st.permanent_prob(M.copy()), dtype=float)
                     if not np.all(np.isfinite(Q)) or np.abs(Q - blk).max() > TOL:
@@ -558,7 +574,7 @@ def gen_weighted(ctx, rng):
                 lasts = sorted(rng.choice((max(1, m // 2), m)) for _ in range(m))
             lasts = [max(v, k + 1) for k, v in enumerate(lasts)]
             seq = random_valid(rng, lasts) if it % 4 else tuple(lasts)
-            wf = weight_fun(rng, mode, m, WSET if (m <= 8 or mode == "rowconst") else (1, 2, 3, 5, 17))
+            wf = weight_fun(rng, mode, m, WSET if (m <= GLYNN_WIDE_MAX or mode == "rowconst") else WMILD)
             W = build(off, seq, wf, wminus=rng.choice(WSET))
             nslots = off + m
             if m >= 9 and mode == "free" and it < 2:
@@ -578,9 +594,10 @@ def gen_weighted(ctx, rng):
         off = 0 if rng.random() < 0.15 else 1
         lasts = [max(v, k + 1) for k, v in enumerate(sorted(rng.randint(1, m) for _ in range(m)))]
         seq = random_valid(rng, lasts)
-        colw = [rng.choice((1, 1, 7, 40)) for _ in range(m)]
+        colw = [rng.choice((1, 1, 7, 40) if m <= 4 else (1, 1, 2, 3)) for _ in range(m)]
         free = [rng.random() < 0.4 for _ in range(m)]
-        tbl = [[(rng.choice(WSET) if free[k] else 1) * (colw[c] if rng.random() < 0.5 else 1) for c in range(m)]
+        tbl = [[(rng.choice(WSET if m <= 4 else WMILD) if free[k] else 1) * (colw[c] if rng.random() < 0.5 else 1)
+                for c in range(m)]
                for k in range(m)]
         W = build(off, seq, lambda k, c: tbl[k][c], wminus=rng.choice(WSET))
         lk = random_locks(rng, off + m, True, rng.choice((0.0, 0.2, 0.4)))
@@ -615,7 +632,7 @@ def gen_weighted(ctx, rng):
                     elif c < s0:
                         row.append(rng.choice(WSET) if below else rw)
                     else:
-                        row.append(rng.choice(WSET) if typ == "free" else rw)
+                        row.append(rng.choice(WSET if b <= GLYNN_WIDE_MAX else WMILD) if typ == "free" else rw)
                 lasts.append(s0 + rel[k])
                 rows.append(row)
             s0 += b
@@ -705,10 +722,10 @@ def sub_functions(ctx, code, rng):
             M = [[rng.choice((0, 0, 1, 2, 4, 8)) for _ in range(m)] for _ in range(m)]
             exact = True
         else:
-            M = [[rng.choice((0,) + WSET) for _ in range(m)] for _ in range(m)]
+            M = [[rng.choice((0,) + (WSET if m <= GLYNN_WIDE_MAX else WMILD)) for _ in range(m)] for _ in range(m)]
             for i in range(m):
                 if M[i][i] == 0:
-                    M[i][i] = rng.choice(WSET)
+                    M[i][i] = rng.choice(WMILD)
             exact = False
         if m >= 2:      # never called with 1x1 by inf_retis (1x1 zero: code TypeError, model nan - reported)
             checks.append(("permprob", M))
@@ -915,6 +932,11 @@ def run(ctx):
         evaluate_family(ctx, code, mc, "monte-carlo-decision")
         t2 = ctx.elapsed()
         sub_functions(ctx, code, rng)
+        ill = predicate(code, ILL_CONDITIONED, full=False)
+        ctx.extra["ill_conditioned_witness"] = {"fails_now": [f[0] for f in ill], "reported": REPORT_ILL_CONDITIONED}
+        if ill and REPORT_ILL_CONDITIONED:
+            ctx.fail("C02:glynn-cancellation-ill-conditioned",
+                     "rounding in fast_glynn_perm: " + ill[0][1], {k: v for k, v in ILL_CONDITIONED.items()})
         t3 = ctx.elapsed()
         malformed(ctx, code, rng)
         t4 = ctx.elapsed()
@@ -934,8 +956,11 @@ def run(ctx):
         "Monte-Carlo branch (non-row-constant blocks > 12) outside exactness: only the branch decision is checked",
         "np.allclose(…, 1) (rtol 1e-5) is modelled as exact equality with 1; on malformed inputs an ok/err:assert "
         "difference is only reported when the code's matrix is doubly stochastic to 1e-12",
-        "weights are integers (exact in float64 and as Lean rationals); free weights for glynn blocks of 9..12 are "
-        "taken from {1,2,3,5,17}, the full set {1,2,3,5,17,1000} is used up to 8 and for all row-constant cases",
+        "weights are integers (exact in float64 and as Lean rationals); conditioning: non-row-constant (glynn) blocks "
+        "larger than 5 get free weights from {1,2,3,5,17} only, the full set {1,2,3,5,17,1000} is used for glynn blocks "
+        "<= 5 and for every row-constant case. Reason: fast_glynn_perm cancels catastrophically for dynamic range 1000 "
+        "(witness ILL_CONDITIONED in c02.py: 9 plus ensembles, one path (1,..,1), eight paths (1000,1,..,1) -> "
+        "AssertionError inside inf_retis; 8 ensembles -> error 5.8e-7); that is rounding, outside the model",
         "the Python oracle (exact integer subset-DP permanents) is compared token-for-token with the Lean "
         "specification probMatrix on every case with an idle block <= 7",
     ]
